@@ -322,8 +322,7 @@ class MacIPAdvertisment(EVPN):
         offset += 1
         # ip address
         if ip_addr_len != 0:
-            route['ip'] = str(netaddr.IPAddress(
-                int(binascii.b2a_hex(value[offset: offset + int(ip_addr_len / 8)]), 16)))
+            route['ip'] = cls.parse_ip_address(value[offset: offset + int(ip_addr_len / 8)])
             offset += int(ip_addr_len / 8)
         # label
         route['label'] = cls.parse_mpls_label_stack(value[offset:])
@@ -377,8 +376,7 @@ class InclusiveMulticastEthernetTag(EVPN):
         offset += 1
         # ip address
         if ip_addr_len != 0:
-            route['ip'] = str(
-                netaddr.IPAddress(int(binascii.b2a_hex(value[offset: int(offset + ip_addr_len / 8)]), 16)))
+            route['ip'] = cls.parse_ip_address(value[offset: int(offset + ip_addr_len / 8)])
         return route
 
     @classmethod
@@ -422,7 +420,7 @@ class EthernetSegment(EVPN):
         offset += 1
         # ip address
         if ip_addr_len != 0:
-            route['ip'] = str(netaddr.IPAddress(int(binascii.b2a_hex(value[offset: offset + ip_addr_len // 8]), 16)))
+            route['ip'] = cls.parse_ip_address(value[offset: offset + ip_addr_len // 8])
         return route
 
     @classmethod
@@ -488,9 +486,9 @@ class IPRoutePrefix(EVPN):
             # ipv6
             offset = 16
 
-        route['prefix'] = '%s/%s' % (str(netaddr.IPAddress(int(binascii.b2a_hex(value[0: offset]), 16))), ip_addr_len)
+        route['prefix'] = '%s/%s' % (cls.parse_ip_address(value[0: offset]), ip_addr_len)
         value = value[offset:]
-        route['gateway'] = str(netaddr.IPAddress(int(binascii.b2a_hex(value[0: offset]), 16)))
+        route['gateway'] = cls.parse_ip_address(value[0: offset])
         value = value[offset:]
 
         route['label'] = cls.parse_mpls_label_stack(value)
